@@ -97,7 +97,7 @@ def c07_exhaustive(tier):
             if k <= 3:
                 yield f'P t {gens.hx("pkg:npm/" + s + "/n#" + s)}'
     # white space and escaped slashes at the edges of a segment (sanitise-after-validate slips)
-    pieces2 = ['a', '..%20', '%20', ' .', '%09..', '.. ', 'a%2F', '%2Fa', '%2f', '.%20.', '%0A..%0D', '\u3000..']
+    pieces2 = ['@a%2Fb', '@%2f', '!', 'a', '..%20', '%20', ' .', '%09..', '.. ', 'a%2F', '%2Fa', '%2f', '.%20.', '%0A..%0D', '\u3000..']
     for k in range(1, 4):
         for w in itertools.product(pieces2, repeat=k):
             s = '/'.join(w)
@@ -151,7 +151,7 @@ c02_compare.obs = lambda c, a: main(a)
 PROPS['C02'] = dict(
     accepts=lambda c: c[0] in 'PS' and kind_of(c) in 'gst',
     gen=lambda tier, rng: chain(gens.gen_spell(rng, Q(tier, 60000, 600000), ('g', 't', 's')), gens.gen_corpus(rng, Q(tier, 2000, 30000), ('g', 't')),
-                                gens.gen_tok(Q(tier, {'head': 3, 'path': 3, 'qual': 3, 'sub': 3, 'seg': 3, 'typed': 3}, TOK_T), ('g', 't'))),
+                                gens.gen_tok(Q(tier, {'head': 3, 'path': 3, 'qual': 3, 'sub': 3, 'seg': 3, 'typed': 3}, TOK_T), ('g', 't')), (c for c in gens.gen_typed_punct() if c[0] == 'P')),
     compare=c02_compare,
     rule='random component tuples with random legal spellings (case, raw/escaped bytes in either hex case, extra slashes, dot segments, qualifier order, '
          'interleaved empty qualifiers, raw @ ? # left of the separator, checksum entry order and case), expected tuple carried with the case; token language and corpus; '
@@ -181,7 +181,7 @@ def c04_sel(c, p):
 PROPS['C04'] = dict(
     accepts=lambda c: c[0] in 'PSBH',
     gen=lambda tier, rng: chain(parse_stream(tier, rng, ('g', 't', 's'), {'head': 3, 'path': 3, 'qual': 3, 'sub': 3}, {'head': 4, 'path': 4, 'qual': 4, 'sub': 4}, (15000, 200000), (2000, 30000)),
-                                gens.gen_build(rng, Q(tier, 30000, 400000), 1, ('g', 't', 's', 'b', 'o')), gens.gen_types(), gens.gen_shape(rng, Q(tier, 3000, 50000)), gens.gen_slot(('g', 't'))),
+                                gens.gen_build(rng, Q(tier, 30000, 400000), 1, ('g', 't', 's', 'b', 'o')), gens.gen_types(), gens.gen_shape(rng, Q(tier, 3000, 50000)), gens.gen_slot(('g', 't')), gens.gen_slot2(('g', 't'))),
     compare=impl_accepts(c04_sel),
     rule='parser streams, builder call sequences for String / Cow borrowed / Cow owned / SmallString / PackageType, and the family of user-written shapes '
          '(3 conversions x 3 type renderings x 29 hook programs); the value handed out compared; invariant evaluated by the oracle on every value',
@@ -199,7 +199,7 @@ def c05_builders():
 PROPS['C05'] = dict(
     accepts=lambda c: (c[0] in 'PSX' and kind_of(c) in 'gt') or (c[0] == 'B' and kind_of(c) in 'gt'), corpus=True,
     gen=lambda tier, rng: chain(gens.gen_fault(rng, Q(tier, 60000, 600000)), gens.gen_utf8(Q(tier, 3, 4), ('g',)), gens.gen_slot(('g', 't')), gens.gen_tok(Q(tier, TOK_Q, TOK_T), ('g', 't')), gens.gen_corpus(rng, Q(tier, 3000, 50000), ('g', 't')),
-                                gens.gen_spell(rng, Q(tier, 5000, 50000)), c05_builders()),
+                                gens.gen_spell(rng, Q(tier, 5000, 50000)), c05_builders(), gens.gen_slot2(('g', 't'))),
     project=both(err_class),
     rule='legal spellings with exactly one injected fault of each listed kind (13 kinds, every spelling of the fault incl. 12 invalid UTF-8 patterns) with the expected error carried; '
          'exhaustive percent-encoded byte sequences of length <= 3 (thorough 4) over the 27 boundary bytes of the UTF-8 table in four component positions; token language; corpus mutations; acceptance / error variant compared in both directions',
@@ -263,6 +263,7 @@ def c08_gen(tier, rng):
                 yield l
     yield from pairs(gens.gen_names(rng, tier))
     yield from pairs(gens.gen_lengths(('t',)))
+    yield from gens.gen_typed_punct()
     yield from pairs(gens.gen_spell(rng, Q(tier, 10000, 100000), ('t',)))
     yield from pairs(gens.gen_tok(Q(tier, {'typed': 4}, {'typed': 5}), ('t',)))
     yield from pairs(gens.gen_corpus(rng, Q(tier, 1000, 20000), ('t',)))
@@ -322,7 +323,7 @@ def c08_compare_factory():
     cmp.obs = lambda c, a: None if c.startswith('P g') else main(a)[:200]
     return cmp
 PROPS['C08'] = dict(
-    accepts=lambda c: (c[0] in 'PSB' and kind_of(c) == 't') or c[0] == 'N',
+    accepts=lambda c: (c[0] in 'PSB' and kind_of(c) == 't') or c[0] == 'N' or (c[0] == 'P' and kind_of(c) == 'g'),
     gen=c08_gen, compare=c08_compare_factory(),
     rule='names: every string of length <= 4 (thorough 5) over {a A 1 - _ . AE-ligature titlecase-dz}, single scalar values (quick: Latin/Greek/Cyrillic/extended blocks, '
          'all special cases and 3000 random; thorough: all 1.1M) through parser and builder for nuget, pypi, cargo; typed vs type-agnostic parse of the same string; '
@@ -341,7 +342,7 @@ PROPS['C09'] = dict(
 PROPS['C10'] = dict(
     accepts=lambda c: c[0] in 'PSB',
     gen=lambda tier, rng: chain(parse_stream(tier, rng, ('g', 't', 's'), {'head': 3, 'path': 3, 'qual': 3, 'sub': 3, 'typed': 3}, TOK_T, (15000, 200000), (2000, 30000)),
-                                gens.gen_build(rng, Q(tier, 30000, 400000), 1, ('g', 't', 's', 'b', 'o')), gens.gen_names(rng, 'quick'), gens.gen_lengths()),
+                                gens.gen_build(rng, Q(tier, 30000, 400000), 1, ('g', 't', 's', 'b', 'o')), gens.gen_names(rng, 'quick'), gens.gen_lengths(), gens.gen_typed_punct()),
     compare=on_same_value(lambda c, p: (vals(p[2]), canon(p[0]) == canon(p[2]))),
     rule='every PURL produced by the parser and builder streams, for String, SmallString, Cow borrowed/owned and PackageType: the result of into_builder().build() compared wherever model and crate hold the same value; idempotence itself checked by the oracle on every value',
 )
@@ -426,6 +427,10 @@ def c13_gen(tier, rng):
         a = l.split(' ')
         yield l
         for k in ('s' if a[0] == 'P' else 'sbo'): yield ' '.join([a[0], k] + a[2:])
+    # types the purl-spec gives special rules (none of which this crate implements), in several letter cases, with mixed-case fields and odd subpaths
+    for ty in ['github', 'GitHub', 'BITBUCKET', 'githuB', 'Composer', 'go_lang', '@scope', 'c#']:
+        for ops in [f'S:{gens.hx("Package-url")},V:{gens.hx("1A")}', f'U:{gens.hx("../cmd")}', f'U:{gens.hx("src/./lib")}', f'S:{gens.hx("/ a")}', '-']:
+            for k in 'gsbo': yield f'B {k} {gens.hx(ty)} {gens.hx("purl-Spec")} {ops}'
 def c13_compare_factory():
     st = {}
     def cmp(c, a, m):
